@@ -270,6 +270,11 @@ func reproduced(rc *replayCase) bool {
 		return o == "HANG"
 	case "witness":
 		return o == "OK"
+	case "footprint":
+		// A store to memory outside the call's own footprint is observed by the executor on a feasible path; a
+		// sequential native run cannot see it (the value may be restored afterwards, or equal). What the native
+		// replay confirms is that the model drives the real build down this path to the end of the harness.
+		return o == "OK"
 	}
 	return false
 }
